@@ -80,6 +80,62 @@ static void run_case (int format, int ch, int rate, int t, int mode /* 0 explici
 	free (fin) ; free (ref0) ; free (data) ; mv_free (&m) ; mv_free (&m0) ;
 }
 
+/* Appending to an existing file through SFM_RDWR while header updates are requested.  The base file carries a string that was set after
+** the first audio (so a chunk follows the audio data in the containers that put strings at the end); it is re-opened SFM_RDWR, frames are
+** appended through one of the 8 typed write entry points, and every call boundary is a crash point as above. */
+static void run_rdwr_case (int format, int ch, int rate, int t, int framewise, int automode)
+{	MEMF base, m, m0 ; SNDFILE *s ; const char *fn = vh_fname (format) ; int i, ncp = 0, ts = vh_tsize [t], pass ; long N0 = 700 + vh_rint (600), total = 1500 + vh_rint (1500), N = 0 ; CP cps [24] ; char *data ; short *b0 ;
+	int *fin = NULL, *ref0 = NULL ; SF_INFO ri, r0 ; long gfin, g0 ; char mname [64] ;
+	snprintf (mname, sizeof (mname), "rdwr-append+%s|%s%s", automode ? "auto" : "update-now", framewise ? "writef_" : "write_", vh_tname [t]) ;
+	memset (&base, 0, sizeof (base)) ; s = vh_open_w (&base, format, ch, rate, NULL) ; if (!s) return ;
+	b0 = malloc (sizeof (short) * N0 * ch) ; for (i = 0 ; i < N0 * ch ; i++) b0 [i] = (short) (8000 * sin (i * 0.013)) ;
+	sf_writef_short (s, b0, N0 / 2) ; sf_set_string (s, SF_STR_COMMENT, "a comment set after the first audio, stored behind the data where the container allows") ; sf_writef_short (s, b0 + (N0 / 2) * ch, N0 - N0 / 2) ; sf_close (s) ; free (b0) ;
+	data = vh_guard_alloc ((size_t) total * ch * 8 + 64, 0) ;
+	for (i = 0 ; i < total * ch ; i++)
+	{	double v = 0.5 * sin (i * 0.017) + 0.1 * sin (i * 0.41) ;
+		switch (t) { case T_SHORT : ((short *) data) [i] = (short) (v * 30000) ; break ; case T_INT : ((int *) data) [i] = (int) (v * 2.0e9) ; break ; case T_FLOAT : ((float *) data) [i] = (float) v ; break ; default : ((double *) data) [i] = v ; } }
+	memset (&m, 0, sizeof (m)) ; memset (&m0, 0, sizeof (m0)) ;
+	for (pass = 0 ; pass < 2 ; pass++)		/* pass 0: no updates (reference), pass 1: updates + crash points */
+	{	MEMF *mm = pass ? &m : &m0 ; SF_INFO si ; uint64_t keep = vh_rs ; long done = 0 ;
+		mv_copy (mm, &base) ; memset (&si, 0, sizeof (si)) ; mm->pos = 0 ;
+		s = sf_open_virtual (&MVIO, SFM_RDWR, &si, mm) ;
+		if (!s) { if (pass == 0) vh_statf (1, "cannot_open_rdwr:%s", fn) ; goto out ; }
+		if (pass && automode) sf_command (s, SFC_SET_UPDATE_HEADER_AUTO, NULL, SF_TRUE) ;
+		if (sf_seek (s, 0, SEEK_END | SFM_WRITE) < 0) { sf_close (s) ; vh_statf (1, "cannot_seek_write_end:%s", fn) ; goto out ; }
+		vh_rs = 0x1234567 + (uint64_t) total ;		/* the same split in both passes */
+		while (done < total && (!pass || ncp < 22))
+		{	long k = 1 + vh_rint (400) ; sf_count_t w ; if (ncp == 21) k = total ; if (k > total - done) k = total - done ;
+			w = vh_write_t (s, t, framewise, data + done * ch * ts, k * ch, ch) ;
+			if (w != k * ch) { vh_viol (vh_key ("C11|write-failed|%s|%s", fn, mname), "append wrote %lld of %ld items", (long long) w, k * ch) ; sf_close (s) ; vh_rs = keep ; goto out ; }
+			done += k ;
+			if (pass) { if (!automode) sf_command (s, SFC_UPDATE_HEADER_NOW, NULL, 0) ; cps [ncp].n_so_far = N0 + done ; mv_copy (&cps [ncp].snap, mm) ; ncp++ ; vh_check_inv (s, "rdwr update") ; }
+			}
+		N = N0 + done ; vh_rs = keep ;
+		sf_close (s) ;
+		}
+	gfin = decode_all (&m, format, ch, rate, &fin, &ri) ; g0 = decode_all (&m0, format, ch, rate, &ref0, &r0) ;
+	if (gfin != g0 || (gfin > 0 && memcmp (fin, ref0, (size_t) gfin * ch * sizeof (int))))
+		vh_viol (vh_key ("C11|updates-change-final-audio|%s|%s", fn, mname), "ch=%d: the finished file decodes to %ld frames, the same appends without header updates give %ld%s (base %ld + appended)", ch, gfin, g0, gfin == g0 ? " (data differs)" : "", N0) ;
+	else vh_stat ("final_files_equal_to_no_update_run", 1) ;
+	for (i = 0 ; i < ncp ; i++)
+	{	int *dec = NULL ; SF_INFO si ; long g = decode_all (&cps [i].snap, format, ch, rate, &dec, &si), n = cps [i].n_so_far, F ;
+		vh_stat ("crash_points_checked", 1) ; vh_stat ("rdwr_append_crash_points", 1) ;
+		vh_distinct (vh_fnv (0, &format, 4) ^ ((uint64_t) ch << 33) ^ ((uint64_t) t << 36) ^ ((uint64_t) (4 + automode) << 38) ^ ((uint64_t) n << 8) ^ ((uint64_t) framewise << 60)) ;
+		if (g == -1) { vh_viol (vh_key ("C11|snapshot-unreadable|%s|%s", fn, mname), "ch=%d: after %ld frames (crash point %d) the copy of the bytes cannot be opened: %s", ch, n, i, sf_strerror (NULL)) ; free (dec) ; break ; }
+		F = (long) si.frames ;
+		if (!(F == n || (F == n + 1 && (n & 1) && vh_bits (format) == 8 && ch == 1)))
+		{	vh_viol (vh_key ("C11|snapshot-frames|%s|%s|%s", fn, mname, F < n ? "fewer-than-written" : "more-than-written"), "ch=%d: base file of %ld frames re-opened SFM_RDWR, %ld frames in the file after the append at crash point %d, the snapshot reports %ld", ch, N0, n, i, F) ; free (dec) ; break ; }
+		if (g != F) vh_viol (vh_key ("C11|snapshot-short-read|%s|%s", fn, mname), "crash point %d: header says %ld frames, reading delivers %ld", i, F, g) ;
+		else if (g > 0 && gfin >= g && memcmp (dec, fin, (size_t) (g < n ? g : n) * ch * sizeof (int))) vh_viol (vh_key ("C11|snapshot-data|%s|%s", fn, mname), "crash point %d (%ld frames): decoded prefix differs from the finished file", i, n) ;
+		else vh_stat ("snapshots_valid", 1) ;
+		free (dec) ;
+		}
+	(void) N ;
+out :
+	for (i = 0 ; i < ncp ; i++) mv_free (&cps [i].snap) ;
+	free (fin) ; free (ref0) ; free (data) ; mv_free (&m) ; mv_free (&m0) ; mv_free (&base) ;
+}
+
 int main (int argc, char **argv)
 {	int f, c, mode, p ;
 	vh_init (argc, argv, "c11_header_update", "C11") ;
@@ -97,6 +153,15 @@ int main (int argc, char **argv)
 			vh_statf (1, "fmt:%s", vh_fname (format)) ;
 			vh_sample ("%s ch=%d: %s, write pattern %d, type %s; every call boundary is a crash point (snapshot parsed by a second handle)", vh_fname (format), c, mode == 0 ? "SFC_UPDATE_HEADER_NOW after each call" : mode == 1 ? "SFC_SET_UPDATE_HEADER_AUTO" : mode == 2 ? "sf_write_raw + auto update" : "sf_write_raw + UPDATE_HEADER_NOW", p % 4, vh_tname [t]) ;
 			run_case (format, c, 8000, t, mode, p % 4) ;
+			}
+		/* SFM_RDWR append with updates: sample-granular encodings only */
+		if (vh_sample_granular (format) && maj != SF_FORMAT_SDS && c <= 2)
+		{	int t, fw, am ;
+			for (t = 0 ; t < T_N ; t++) for (fw = 0 ; fw < 2 ; fw++) for (am = 0 ; am < 2 ; am++)
+			{	if (!vh_thorough && ((t + fw + am + c) & 1)) continue ;
+				if (!vh_case ("%s ch=%d rdwr append %s%s %s", vh_fname (format), c, fw ? "writef_" : "write_", vh_tname [t], am ? "auto" : "update-now")) continue ;
+				run_rdwr_case (format, c, 8000, t, fw, am) ;
+				}
 			}
 		}
 	return vh_finish () ;
